@@ -59,6 +59,23 @@ def _is_pad_loop(st):
     return name, t.comparators[0], b.value.args[0]
 
 
+def _is_extend_loop(st):
+    """for x in Y: L.append(x)   ==   L.extend(Y)"""
+    if not isinstance(st, ast.For) or st.orelse or len(st.body) != 1 or not isinstance(st.target, ast.Name):
+        return None
+    b = st.body[0]
+    if isinstance(b, ast.Expr) and isinstance(b.value, ast.Call) and isinstance(b.value.func, ast.Attribute) \
+            and b.value.func.attr == "append" and len(b.value.args) == 1 and isinstance(b.value.args[0], ast.Name) \
+            and b.value.args[0].id == st.target.id and not b.value.keywords:
+        call = ast.Call(func=ast.Attribute(value=b.value.func.value, attr="extend", ctx=ast.Load()), args=[st.iter], keywords=[])
+        new = ast.Expr(value=call)
+        ast.copy_location(new, st)
+        ast.copy_location(call, st)
+        ast.fix_missing_locations(new)
+        return new
+    return None
+
+
 def _const_truth(test):
     if isinstance(test, ast.Constant):
         return bool(test.value)
@@ -128,6 +145,10 @@ class Enumerator:
         if isinstance(st, ast.While):
             return self._while(st)
         if isinstance(st, ast.For):
+            ext = _is_extend_loop(st) if self.summarize_pad else None
+            if ext is not None:
+                ev = Ev("stmt", ext)
+                return [Path([ev], "fall")] + self._raising(st, ev)
             return self._for(st)
         if isinstance(st, ast.Try):
             return self._try(st)
